@@ -394,16 +394,19 @@ func raceGCS(seed int64) {
 	var wg sync.WaitGroup
 	// every goroutine starts by creating the same, not yet existing bucket and uploading into it:
 	// whatever the creations' order, an upload that was answered 200 is still there at the end
-	var fresh [8]int32
+	const nFresh = 16
+	var fresh [8 * nFresh]int32
 	for g := 0; g < nG; g++ {
 		lr := rand.New(rand.NewSource(seed*37 + int64(g)))
 		g := g
 		wg.Add(1)
 		go func() {
 			defer wg.Done()
-			do("POST", "/storage/v1/b", url.Values{"project": {"p"}}, map[string]string{"Content-Type": "application/json"}, []byte(`{"name":"fresh"}`))
-			if rec := do("POST", "/upload/storage/v1/b/fresh/o", url.Values{"uploadType": {"media"}, "name": {fmt.Sprintf("n%d", g)}}, map[string]string{"Content-Type": "text/plain"}, []byte("kept")); rec.Code == 200 {
-				atomic.StoreInt32(&fresh[g], 1)
+			for b := 0; b < nFresh; b++ {
+				do("POST", "/storage/v1/b", url.Values{"project": {"p"}}, map[string]string{"Content-Type": "application/json"}, []byte(fmt.Sprintf(`{"name":"fresh%d"}`, b)))
+				if rec := do("POST", fmt.Sprintf("/upload/storage/v1/b/fresh%d/o", b), url.Values{"uploadType": {"media"}, "name": {fmt.Sprintf("n%d", g)}}, map[string]string{"Content-Type": "text/plain"}, []byte("kept")); rec.Code == 200 {
+					atomic.StoreInt32(&fresh[g*nFresh+b], 1)
+				}
 			}
 			for i := 0; i < 20; i++ {
 				name := fmt.Sprintf("o%d", lr.Intn(6))
@@ -462,9 +465,12 @@ func raceGCS(seed int64) {
 	}
 	wg.Wait()
 	for g := 0; g < nG; g++ {
-		if atomic.LoadInt32(&fresh[g]) == 1 {
-			if rec := do("GET", fmt.Sprintf("/storage/v1/b/fresh/o/n%d", g), url.Values{"alt": {"media"}}, nil, nil); rec.Code != 200 || rec.Body.String() != "kept" {
-				raceFail("object fresh/n%d was uploaded (HTTP 200) into a bucket several requests were creating at once; afterwards GET gives HTTP %d %q", g, rec.Code, rec.Body.String())
+		for b := 0; b < nFresh; b++ {
+			if atomic.LoadInt32(&fresh[g*nFresh+b]) == 1 {
+				if rec := do("GET", fmt.Sprintf("/storage/v1/b/fresh%d/o/n%d", b, g), url.Values{"alt": {"media"}}, nil, nil); rec.Code != 200 || rec.Body.String() != "kept" {
+					raceFail("object fresh%d/n%d was uploaded (HTTP 200) into a bucket several requests were creating at once; afterwards GET gives HTTP %d %q", b, g, rec.Code, rec.Body.String())
+					return
+				}
 			}
 		}
 	}
